@@ -19,6 +19,10 @@ type c16Case struct {
 	Variant int            `json:"variant"`
 	Counts  map[string]int `json:"counts,omitempty"` // ellipsis fills applied before observing (post-expansion trees)
 	Hdr     *Hdr           `json:"hdr,omitempty"`
+	// Collide: the names were chosen so that two positions may carry the same name (directly, or after an
+	// expansion appends [j] suffixes). Such a tree / fill must be refused; if it is not, the observers are
+	// checked as usual and report the duplicate.
+	Collide bool `json:"collide,omitempty"`
 }
 
 func init() { registerReplay("c16", checkC16) }
@@ -63,14 +67,40 @@ func observersAgree(it ast.ItemNode, what string) (vars int, err error) {
 }
 
 func checkC16(c c16Case) (ci caseInfo, err error) {
-	root := buildItem(c.Tree, c.Variant)
+	var root ast.ItemNode
+	if c.Collide {
+		ci.label("collision-prone-names")
+		if p, _ := try(func() { root = buildItem(c.Tree, c.Variant) }); p {
+			ci.label("collision:refused-at-construction")
+			ci.Nontrivial = true
+			return ci, nil
+		}
+	} else {
+		root = buildItem(c.Tree, c.Variant)
+	}
 	if len(c.Counts) > 0 {
 		fill := map[string]interface{}{}
 		for k, v := range c.Counts {
 			fill[k] = v
 		}
-		root = root.FillVariables(fill)
+		if c.Collide {
+			if p, _ := try(func() { root = root.FillVariables(fill) }); p {
+				ci.label("collision:refused-at-expansion")
+				ci.Nontrivial = true
+				return ci, nil
+			}
+		} else {
+			root = root.FillVariables(fill)
+		}
 		ci.label("post-expansion")
+	}
+	if c.Collide {
+		// not refused: then no name may occur twice (checked by observersAgree below); sub-items are skipped
+		_, err := observersAgree(root, "root item (collision-prone names, not refused)")
+		if err == nil {
+			ci.label("collision:no-actual-duplicate")
+		}
+		return ci, err
 	}
 	nvars, err := observersAgree(root, "root item")
 	if err != nil {
@@ -160,6 +190,31 @@ func genC16(t *rapid.T) c16Case {
 	if rapid.IntRange(0, 2).Draw(t, "asMessage") == 2 {
 		h := genHdr(t, false)
 		c.Hdr = &h
+	}
+	if rapid.IntRange(0, 4).Draw(t, "collide") == 4 {
+		// rename variables from a tiny pool, so that equal names (or names that become equal once an expansion
+		// appends its suffix) land in different nodes of the tree, also across nested-list boundaries
+		c.Collide = true
+		c.Hdr = nil
+		pool := []string{"a", "a", "b", "a[0]", "a[1]", "a[1]", "a[0][0]", "b[0]"}
+		c.Tree.Walk(func(x *model.Node) {
+			if x.Bulk != nil {
+				return
+			}
+			for i := range x.Elems {
+				if x.Elems[i].Var != "" {
+					x.Elems[i].Var = rapid.SampledFrom(pool).Draw(t, "poolName")
+				}
+			}
+			if x.AVar != nil {
+				x.AVar.Name = rapid.SampledFrom(pool).Draw(t, "poolName")
+			}
+			for i := range x.Children {
+				if x.Children[i].Node == nil && !model.IsEllipsisName(x.Children[i].Var) {
+					x.Children[i].Var = rapid.SampledFrom(pool).Draw(t, "poolName")
+				}
+			}
+		})
 	}
 	return c
 }
